@@ -310,6 +310,10 @@ func genFront(out string) {
 		fmt.Fprintf(&w, "Definition front_%s_conds : list string := %s.\n", fn.coq, frList(frConds(server, fd.Body)))
 		fmt.Fprintf(&w, "Definition front_%s_calls : list string := %s.\n", fn.coq, frList(frCacheCalls(server, fd.Body)))
 	}
+	// FindMissingBlobs: the whole handler (nothing may come between the request's digest list and the
+	// disk layer's call: no de-duplication, no reordering)
+	fmb := server.findFunc("grpcServer", "FindMissingBlobs")
+	fmt.Fprintf(&w, "Definition front_FindMissingBlobs_src : string :=\n  %s.\n", coqString(frText(server, fmb.Body)))
 	// the status codes BatchUpdateBlobs assigns per blob
 	bu := server.findFunc("grpcServer", "BatchUpdateBlobs")
 	var codes []string
